@@ -324,6 +324,15 @@ def normalise_tree(n):
         if isinstance(v, (dict, list)):
             n[k] = normalise_tree(v)
     k = n.get("k")
+    # `x = x op e`  ==  `x op= e`
+    if k == "assign" and isinstance(n.get("r"), dict) and n["r"].get("k") == "bin" \
+            and n["r"].get("op") in ("+", "-", "*", "/", "<<", ">>", "|", "&", "^", "%"):
+        if _same_place(n["l"], n["r"]["l"]):
+            return {"k": "assignop", "ty": n.get("ty"), "sp": n.get("sp"), "mac": n.get("mac"), "op": n["r"]["op"] + "=",
+                    "l": n["l"], "r": n["r"]["r"], "from_assign": True}
+        if n["r"]["op"] in ("+", "*", "|", "&", "^") and _same_place(n["l"], n["r"]["r"]):
+            return {"k": "assignop", "ty": n.get("ty"), "sp": n.get("sp"), "mac": n.get("mac"), "op": n["r"]["op"] + "=",
+                    "l": n["l"], "r": n["r"]["l"], "from_assign": True}
     if k == "match" and len(n.get("arms", [])) == 2 and not n["arms"][0].get("guard") and not n["arms"][1].get("guard") \
             and n.get("src", "").startswith("Normal"):
         a, b = n["arms"]
@@ -351,3 +360,41 @@ def normalise_tree(n):
                 n["expr"] = iff
                 break
     return n
+
+
+
+def _same_place(a, b):
+    """structural equality of two place expressions (ignoring spans, types, adjustments)"""
+    if not isinstance(a, dict) or not isinstance(b, dict):
+        return a == b
+    ka, kb = a.get("k"), b.get("k")
+    # `*x` vs `x` when auto-deref'd: compare through derefs / refs
+    while ka in ("addr",) or (ka == "un" and a.get("op") == "*"):
+        a = a["e"]
+        ka = a.get("k")
+    while kb in ("addr",) or (kb == "un" and b.get("op") == "*"):
+        b = b["e"]
+        kb = b.get("k")
+    if ka != kb:
+        return False
+    if ka == "local":
+        return a.get("id") == b.get("id")
+    if ka == "field":
+        return a.get("name") == b.get("name") and _same_place(a["e"], b["e"])
+    if ka == "index":
+        return _same_place(a["e"], b["e"]) and _same_place(a["i"], b["i"])
+    if ka == "lit":
+        return a.get("v") == b.get("v")
+    if ka in ("call", "mcall"):
+        if a.get("callee") != b.get("callee"):
+            return False
+        aa = ([a["recv"]] if ka == "mcall" else []) + list(a.get("args", []))
+        bb = ([b["recv"]] if kb == "mcall" else []) + list(b.get("args", []))
+        return len(aa) == len(bb) and all(_same_place(x, y) for x, y in zip(aa, bb))
+    if ka == "cast":
+        return a.get("ty") == b.get("ty") and _same_place(a["e"], b["e"])
+    if ka == "def":
+        return a.get("path") == b.get("path")
+    if ka == "bin":
+        return a.get("op") == b.get("op") and _same_place(a["l"], b["l"]) and _same_place(a["r"], b["r"])
+    return False
